@@ -86,7 +86,7 @@ func CmdCheck(args []string) int {
 		return 2
 	}
 	id, tier := args[0], args[1]
-	solver := "z3"
+	solver := "z3-new"
 	workers := 16
 	only := ""
 	for i := 2; i+1 < len(args); i += 2 {
@@ -160,6 +160,12 @@ func CmdCheck(args []string) int {
 
 	ev := newEvidence(id, tier, seed)
 	ev.Coverage["solver"] = solver
+	ev.Assumptions = append([]string{
+		"go/packages + go/ssa (x/tools v0.29.0) translate /repo's working tree faithfully",
+		"the gosym interpreter implements SSA semantics (checked by `gosym selftest` conformance programs and by native replay of every counterexample)",
+		"intrinsics/stubs of DESIGN.md §3.5 (bytealg, sync, atomic, time, fmt, log) behave per their documented contracts",
+		"claims hold only within the bounds listed under coverage.runs[].bounds",
+	}, p.Assume...)
 	rc := 0
 	var violationLines []string
 	var problems []string
